@@ -3,7 +3,7 @@
 //! the Lean model (`lean/Driver/C19.lean` over `Generated/TestRunner.lean`).
 //!
 //! usage: c19 run <seed> <quick|thorough>
-//!        c19 replay <json>          ({"part":"api"|"cli","seed":…,"index":…})
+//!        c19 replay <json>          ({"part":"api"|"cli"|"history","seed":…,"index":…})
 //! env:   ROTO_BIN = the `roto` binary built from the repository under test
 //!        (without it the CLI part is reported as a broken correspondence).
 
@@ -1103,6 +1103,115 @@ fn cli_case(rep: &mut Report, drv: &mut Model, bin: &str, scratch: &std::path::P
     }
 }
 
+
+// -------------------------------------------------------------- history part
+//
+// "In a deterministic order": the order in which the blocks run may depend on the
+// package only — not on what the process compiled before (interning order of the
+// names, allocation history, …).  One case is run in three fresh processes that
+// first compile nothing / a decoy script declaring the same test names in reverse
+// order / in rotated order; the three execution orders must be equal.  (Within one
+// process such a dependence is invisible: two compilations see the same history.)
+
+fn history_case_for(seed: u64, idx: u64) -> Case {
+    match idx {
+        0 => counted(&[&[]], 0, 24),
+        1 => counted(&DEEP, 3, 37),
+        2 => boundary_api(2).unwrap(),
+        3 => boundary_api(4).unwrap(),
+        _ => gen_case(&mut Prng::for_case(seed ^ 0x4157, idx), false),
+    }
+}
+
+const N_HISTORIES: u64 = 3;
+
+fn decoy(case: &Case, history: u64) -> Option<String> {
+    let mut names: Vec<String> = vec![];
+    for m in &case.mods {
+        for t in m.tests() {
+            if !names.contains(&t.name) {
+                names.push(t.name.clone());
+            }
+        }
+    }
+    match history {
+        0 => return None,
+        1 => names.reverse(),
+        _ => {
+            let k = names.len() / 2;
+            names.rotate_left(k);
+            names.reverse();
+        }
+    }
+    Some(names.iter().map(|n| format!("test {n} {{\n    accept\n}}\n")).collect())
+}
+
+/// child process: `worker order <seed> <idx> <history>` prints `ORDER <id,id,…>` (or `SKIP <why>`)
+fn history_child(seed: u64, idx: u64, history: u64) {
+    let case = history_case_for(seed, idx);
+    let rt = runtime();
+    if let Some(src) = decoy(&case, history) {
+        let d = Case { mods: vec![ModGen { path: vec![], items: vec![Item::Raw(src)] }], must_fail: None };
+        if quiet(|| file_tree(&d).compile(&rt).map(|_| ())).is_err() {
+            println!("SKIP decoy does not compile");
+            return;
+        }
+    }
+    let Ok(mut pkg) = quiet(|| file_tree(&case).compile(&rt)) else {
+        println!("SKIP case does not compile");
+        return;
+    };
+    take_log();
+    let r = quiet(|| pkg.run_tests());
+    let log = take_log();
+    println!("ORDER {} {}", if r.is_ok() { "Ok" } else { "Err" }, log.iter().map(|x| x.to_string()).collect::<Vec<_>>().join(","));
+}
+
+fn history_part(rep: &mut Report, seed: u64, from: u64, n: u64) {
+    for idx in from..from + n {
+        let case = history_case_for(seed, idx);
+        let ntests: usize = case.mods.iter().map(|m| m.tests().len()).sum();
+        if ntests < 2 {
+            continue;
+        }
+        rep.evaluations += 1;
+        let cj = json!({"part": "history", "seed": seed, "index": idx, "case": case_json(&case, false)});
+        let (s, i) = (seed.to_string(), idx.to_string());
+        let mut outs = vec![];
+        for h in 0..N_HISTORIES {
+            let hs = h.to_string();
+            let (ended, out) = rotov_harness::worker::run_worker_keep_stdout(&["order", &s, &i, &hs], Duration::from_secs(300));
+            let line = out.lines().rev().find(|l| l.starts_with("ORDER ") || l.starts_with("SKIP ")).map(|l| l.to_string());
+            match (&ended, line) {
+                (Ended::Exit(0, _), Some(l)) => outs.push(l),
+                _ => {
+                    rep.violation(
+                        "process died (trap/abort/hang) while compiling or running the tests of a generated script",
+                        "test runner crash",
+                        json!({"case": cj, "history": h, "ended": format!("{ended:?}")}),
+                    );
+                    outs.push("SKIP crashed".into());
+                }
+            }
+        }
+        if outs.iter().any(|o| o.starts_with("SKIP")) {
+            if outs.iter().any(|o| o.starts_with("SKIP decoy") || o.starts_with("SKIP case")) {
+                rep.mismatch("history part: a generated script does not compile", json!({"case": cj, "answers": outs}));
+            }
+            continue;
+        }
+        rep.hist("history: blocks", ntests.min(40).to_string());
+        rep.class(format!("history|{}|{}", case.mods.len(), ntests.min(40)));
+        if outs.iter().any(|o| *o != outs[0]) {
+            rep.violation(
+                "the order (or result) of run_tests depends on what the process compiled before: fresh processes that first compiled nothing / the same test names in reverse / in rotated order disagree",
+                "test order depends on process history",
+                json!({"case": cj, "fresh": outs[0], "after reversed decoy": outs[1], "after rotated decoy": outs[2]}),
+            );
+        }
+    }
+}
+
 fn scratch_dir() -> std::path::PathBuf {
     let base = std::env::var("CARGO_TARGET_DIR")
         .map(std::path::PathBuf::from)
@@ -1138,7 +1247,7 @@ fn main() {
             let tier = args.get(3).map(|s| s.as_str()).unwrap_or("quick");
             let thorough = tier != "quick";
             let seed_s = seed.to_string();
-            let (napi, ncli) = if thorough { (5000, 1000) } else { (200, 70) };
+            let (napi, ncli, nhist) = if thorough { (5000, 1000, 150) } else { (300, 100, 20) };
             // the CLI boundary table first: exit status on failure counts / module depths
             cli_part(&mut rep, seed, 0, N_CLI_BOUNDARY, thorough);
             run_batches(&["api", &seed_s], napi, 100, Duration::from_secs(900), &mut rep,
@@ -1151,10 +1260,16 @@ fn main() {
                     );
                 });
             cli_part(&mut rep, seed, N_CLI_BOUNDARY, ncli - N_CLI_BOUNDARY, false);
+            history_part(&mut rep, seed, 0, nhist);
             rep.notes.push(format!(
-                "profile: dbg={DBG}; api scripts {napi} (the first {N_API_BOUNDARY} are the boundary table), cli invocations {ncli} (the first {N_CLI_BOUNDARY} are the boundary table{})",
+                "profile: dbg={DBG}; api scripts {napi} (the first {N_API_BOUNDARY} are the boundary table), cli invocations {ncli} (the first {N_CLI_BOUNDARY} are the boundary table{}), history cases {nhist} x {N_HISTORIES} fresh processes",
                 if thorough { ", with the 65536-block case" } else { "" }
             ));
+        }
+        Some("worker") if args.get(2).map(|s| s.as_str()) == Some("order") => {
+            std::panic::set_hook(Box::new(|_| {}));
+            history_child(args[3].parse().unwrap(), args[4].parse().unwrap(), args[5].parse().unwrap());
+            return;
         }
         Some("worker") => {
             std::panic::set_hook(Box::new(|_| {}));
@@ -1173,6 +1288,8 @@ fn main() {
             let idx = v["index"].as_u64().unwrap_or(0);
             if v["part"] == "cli" {
                 cli_part(&mut rep, seed, idx, 1, true);
+            } else if v["part"] == "history" {
+                history_part(&mut rep, seed, idx, 1);
             } else {
                 let mut drv = Model::spawn();
                 api_case(&mut rep, &mut drv, seed, idx);
